@@ -32,3 +32,4 @@ _reg("C21")
 _reg("C23")
 _reg("C25")
 _reg("C22")
+_reg("C18")
